@@ -30,6 +30,7 @@ from thewalrus.symplectic import rotation as _R
 from thewalrus.symplectic import xpxp_to_xxpp
 
 import thewalrus.quantum as twq
+from thewalrus import hermite_multidimensional
 
 import strawberryfields as sf
 
@@ -40,6 +41,48 @@ except AttributeError:  # scipy<2
 
 
 indices = string.ascii_lowercase
+
+
+def _component_density_matrix(mu, cov, cutoff, hbar):
+    r"""Fock representation of one Gaussian component of a bosonic state.
+
+    The components of a bosonic state may have complex-valued means (e.g., the interference
+    terms of a cat state). Their Fock matrix elements are the analytic continuation in the
+    means of the elements of a Gaussian state; thewalrus instead conjugates the displacement,
+    which is only correct for real means. Real means are therefore handed to thewalrus, complex
+    means are treated here with the same multidimensional Hermite polynomials.
+
+    Args:
+        mu (array): length-2N vector of means in the (x_1,...,x_N,p_1,...,p_N) ordering
+        cov (array): 2Nx2N covariance matrix in the same ordering
+        cutoff (int): Fock space truncation
+        hbar (float): value of hbar
+
+    Returns:
+        array: tensor :math:`\rho_{i_1 j_1 i_2 j_2 \dots}` of shape ``[cutoff] * 2N``
+    """
+    mu = np.asarray(mu)
+    cov = np.real_if_close(np.asarray(cov))
+    if not np.iscomplexobj(mu) or np.allclose(mu.imag, 0) or np.iscomplexobj(cov):
+        return twq.density_matrix(
+            np.real_if_close(mu), cov, hbar=hbar, normalize=False, cutoff=cutoff
+        )
+
+    num = len(mu) // 2
+    Q = twq.Qmat(cov, hbar=hbar)
+    Qinv = np.linalg.inv(Q)
+    X = twq.Xmat(num)
+    A = X @ (np.identity(2 * num) - Qinv)
+    # <a> and <a^dagger> continued analytically: no complex conjugation of the means
+    alpha = (mu[:num] + 1j * mu[num:]) / np.sqrt(2 * hbar)
+    alpha_t = (mu[:num] - 1j * mu[num:]) / np.sqrt(2 * hbar)
+    beta = np.concatenate([alpha, alpha_t])
+    beta_t = np.concatenate([alpha_t, alpha])
+    pref = np.exp(-0.5 * beta @ Qinv @ beta_t) / np.sqrt(np.linalg.det(Q))
+    y = beta - A @ beta_t
+    tensor = pref * hermite_multidimensional(-A, cutoff, y=y, renorm=True, modified=True)
+    sf_order = tuple(chain.from_iterable([[i, i + num] for i in range(num)]))
+    return tensor.transpose(sf_order)
 
 
 class BaseState(abc.ABC):
@@ -1785,12 +1828,8 @@ class BaseBosonicState(BaseState):
         rho = 0
         for i in range(self.num_weights):
             # thewalrus expects the (x_1,...,x_N,p_1,...,p_N) ordering
-            rho += weights[i] * twq.density_matrix(
-                xpxp_to_xxpp(mus[i]),
-                xpxp_to_xxpp(covs[i]),
-                hbar=self._hbar,
-                normalize=False,
-                cutoff=cutoff,
+            rho += weights[i] * _component_density_matrix(
+                xpxp_to_xxpp(mus[i]), xpxp_to_xxpp(covs[i]), cutoff, self._hbar
             )
         return rho
 
@@ -1911,9 +1950,15 @@ class BaseBosonicState(BaseState):
         prob = 0
         for i in range(self.num_weights):
             # thewalrus expects the (x_1,...,x_N,p_1,...,p_N) ordering
-            prob += self._weights[i] * twq.density_matrix_element(
-                xpxp_to_xxpp(self._mus[i]), xpxp_to_xxpp(self._covs[i]), n, n, hbar=self._hbar
-            )
+            mu, cov = xpxp_to_xxpp(self._mus[i]), xpxp_to_xxpp(self._covs[i])
+            if np.allclose(np.imag(mu), 0):
+                prob += self._weights[i] * twq.density_matrix_element(
+                    np.real_if_close(mu), cov, n, n, hbar=self._hbar
+                )
+            else:
+                # components with complex means: see _component_density_matrix
+                rho = _component_density_matrix(mu, cov, max(n) + 1, self._hbar)
+                prob += self._weights[i] * rho[tuple(k for m in n for k in (m, m))]
         return prob.real
 
     def all_fock_probs(self, **kwargs):
